@@ -133,7 +133,7 @@ func getVariablesList(s ast.SelectionSet) []string {
 				continue
 			}
 
-			if a.Value != nil {
+			if a.Value != nil && a.Value.Kind == ast.Variable {
 				args = append(args, a.Value.Raw)
 			}
 		}
@@ -153,7 +153,7 @@ func getArgumentListChildrenVariablesList(childs ast.ChildValueList) []string {
 			continue
 		}
 
-		if ch.Value != nil {
+		if ch.Value != nil && ch.Value.Kind == ast.Variable {
 			args = append(args, ch.Value.Raw)
 		}
 	}
